@@ -6,7 +6,7 @@
 (***************************************************************************)
 EXTENDS PageSpec, TLC, Json
 
-CONSTANTS MaxDepth, MaxPages, Export
+CONSTANTS MaxDepth, MaxPages, Export, Merge
 
 VARIABLE last     \* sequence of the operations executed so far (hidden by VIEW except its length)
 
@@ -35,7 +35,7 @@ MCNext ==
 
 MCSpec == MCInit /\ [][MCNext]_<<pvars, last>>
 
-MCView == <<ws, lg, wfail, fp, Len(last)>>
+MCView == IF Merge THEN <<ws, lg, wfail, fp, Len(last)>> ELSE <<ws, lg, wfail, fp, last>>
 Bound  == Len(ws[1]) <= MaxPages * PAGE
 
 \* ---- observer digest: what the harness can see through the public surface ----
